@@ -414,8 +414,10 @@ theorem step_call_cases (H : Heap) (k : Nat) (m : Str) (args : Args) :
   · split
     · exact Or.inl ⟨_, rfl⟩
     · split
-      · exact Or.inr ⟨_, _, rfl⟩
       · exact Or.inl ⟨_, rfl⟩
+      · split
+        · exact Or.inr ⟨_, _, rfl⟩
+        · exact Or.inl ⟨_, rfl⟩
 
 /-- making a caller: an error, a caller on an existing `HttpConn`, or on a connection made for it -/
 theorem step_newCaller_cases (H : Heap) (t : Target) (cls : Nat) :
@@ -491,7 +493,7 @@ theorem step_inv {H : Heap} (hi : Inv H) (op : Op) : Inv (step H op).1 := by
     split
     · exact hi.setDicts _ _
     · exact hi
-  | newClass bases mro pmap own =>
+  | newClass bases mro pmap own dlg =>
     simp only [step]
     split
     · exact hi
@@ -675,7 +677,7 @@ theorem step_view {H : Heap} (hi : Inv H) {c : Nat} (hc : c < H.conns.length) (o
         exact hne (hi.conn_inj c' c cn' cn hcn' hcn heq.symm)
       · rfl
   | newParams d => simp only [step]; split <;> rfl
-  | newClass bases mro pmap own => simp only [step]; split <;> rfl
+  | newClass bases mro pmap own dlg => simp only [step]; split <;> rfl
   | newCaller t cls =>
     rcases step_newCaller_cases H t cls with ⟨e, h⟩ | ⟨cl, _, _, h⟩ | ⟨H', n, t', cl, hmk, _, _, h⟩
     · rw [h]
